@@ -49,6 +49,7 @@ pub fn run(ctx: &mut Ctx, suite: &str) {
         "c13e" => c12::run_shutdown_emfile(ctx),
         "c10r" => c12::run_upload_revoked(ctx),
         "c20w" => c04::run_c20w(ctx),
+        "c08s" => c12::run_stall(ctx),
         "c19" => c19::run(ctx),
         "c20" => c20::run(ctx),
         _ => {
@@ -83,6 +84,7 @@ pub fn replay(ctx: &mut Ctx, tag: &str, args: &[&str]) {
         "c12e" => c12::case_emfile(ctx, args[0], args[1]),
         "c13e" => c12::case_shutdown_emfile(ctx, args[0], args[1]),
         "c13" => c12::case_shutdown(ctx, args[0], args[1], args[2]),
+        "c08s" => c12::case_stall(ctx, args[0]),
         "c19s" => c19::case_set(ctx, args[0], args[1]),
         "c19w" => c19::case_writer(ctx, args[0], args[1], args[2], args[3], args[4]),
         "c20e" => c20::case_error(ctx, args[0]),
